@@ -36,8 +36,8 @@ class C11(Property):
         "step interpolation exactly at the step position (|dt - step| < 1e-9) is unconstrained",
         "linear results compared with relative tolerance 1e-12, all other kinds exactly",
     )
-    cases = {"quick": 8000, "thorough": 200000}
-    min_nontrivial = {"quick": 3000, "thorough": 60000}
+    cases = {"quick": 8000, "thorough": 600000}
+    min_nontrivial = {"quick": 3000, "thorough": 150000}
 
     def gen(self, rnd, i, tier):
         kind = KINDS[i % 4]
